@@ -193,6 +193,9 @@ func (s *Session) runUnits(names []string) ([]*UnitResult, error) {
 		r.UsedCons = sortedKeys(ex.usedCons)
 		r.Instances = len(ex.obls)
 		r.ExecSecs = time.Since(t0).Seconds()
+		if os.Getenv("GOVC_DEBUG") != "" {
+			fmt.Fprintf(os.Stderr, "unit %s: %d paths, %d instances, %d symbols, exec %.1fs\n", j.name, ex.paths, len(ex.obls), len(ex.w.st.order), r.ExecSecs)
+		}
 	}
 	// solve
 	type task struct {
